@@ -45,7 +45,7 @@ def run(chk):
     built = {}
     cases, meta = [], []
     for fname, fam in fams:
-        data = json.load(open(os.path.join("/repo/coxeter/families/data", fname + ".json")))
+        data = json.load(open(os.path.join(C.REPO, "coxeter/families/data", fname + ".json")))
         names = list(fam.names)
         if names != list(data.keys()) or len(set(names)) != len(names):
             chk.violation("names-order", dict(family=fname, what="names differ from the order of the data file or contain duplicates"))
